@@ -168,8 +168,12 @@ def h_ms_floor_ieee(x):
         r = M._timestamp_parse(S.mkdt(u, 0))
         return [("ieee-ms-floor", S.dt_us(r) == u - u % 1000)], [S.dt_us(r)]
     fp.declare_bounds("u", 0, U_MAX)
-    with ieee():
-        r = M._timestamp_parse(S.SDatetime(u, 0, False))
+    fp.USE_MS_FLOOR_LEMMA = False
+    try:
+        with ieee():
+            r = M._timestamp_parse(S.SDatetime(u, 0, False))
+    finally:
+        fp.USE_MS_FLOOR_LEMMA = True
     return [("ieee-ms-floor", S.dt_us(r) == u - u % 1000)], [S.dt_us(r)]
 
 
